@@ -233,7 +233,7 @@ func (lf *Life) Apply(d *Disk, ex *Expect, parallel bool) {
 		lf.Tally[ex.Outcome]++
 	}
 	if ex.Dirty {
-		d.MarkDirty(ex.File, scen.Standalone(ex.Call.API))
+		d.NoteDirtyCall(ex)
 		return
 	}
 	switch ex.Outcome {
@@ -279,6 +279,20 @@ func (d *Disk) MarkDirty(path string, solo bool) {
 	}
 }
 
+// NoteDirtyCall: the model does not predict this call; the file becomes dirty
+// but the slot's id is remembered (so that Clean's report can be related to it).
+func (d *Disk) NoteDirtyCall(ex *Expect) {
+	solo := scen.Standalone(ex.Call.API)
+	d.MarkDirty(ex.File, solo)
+	if solo {
+		return
+	}
+	f, i := d.find(ex.File, ex.Test, ex.K)
+	if f != nil && i < 0 {
+		f.Entries = append(f.Entries, Entry{Test: ex.Test, K: ex.K, Text: Text{Key: "?"}, API: ex.Call.API})
+	}
+}
+
 // MarkAllDirty: nothing about the snapshot files is predicted any more.
 func (d *Disk) MarkAllDirty() {
 	for _, f := range d.Multi {
@@ -298,7 +312,9 @@ type CleanPlan struct {
 	MayReorder     bool            // sort requested and not CI
 	ObsoleteFiles  map[string]bool // must be reported (no -run only)
 	ObsoleteTests  map[string]bool // file+"\x00"+id; must be reported (no -run only)
-	DirtyAddressed bool            // an addressed file is no longer predicted: id-based checks of the report are off
+	DirtyAddressed bool            // an addressed file is no longer predicted
+	DirtyIDs       map[string]bool // ids that may live in such a file: nothing is demanded about their listing
+	DirtyTests     map[string]bool
 	// items that must survive and must not be listed, with the property that
 	// protects them
 	KeepFiles map[string]string
@@ -325,7 +341,7 @@ func (lf *Life) PlanClean(d *Disk, ran []string, skipped []string) *CleanPlan {
 	p := &CleanPlan{HasRun: lf.L.Run != "", Deletes: lf.Mode.CleanDeletes(),
 		MayReorder:    lf.L.Clean != nil && lf.L.Clean.Opts && lf.L.Clean.Sort && !lf.Mode.CI,
 		ObsoleteFiles: map[string]bool{}, ObsoleteTests: map[string]bool{}, KeepFiles: map[string]string{}, KeepTests: map[string]string{},
-		FreeFiles: map[string]bool{}, FreeTests: map[string]bool{}, Dirs: map[string]bool{}}
+		FreeFiles: map[string]bool{}, FreeTests: map[string]bool{}, Dirs: map[string]bool{}, DirtyIDs: map[string]bool{}, DirtyTests: map[string]bool{}}
 	ranSet := map[string]bool{}
 	for _, r := range ran {
 		ranSet[r] = true
@@ -350,8 +366,14 @@ func (lf *Life) PlanClean(d *Disk, ran []string, skipped []string) *CleanPlan {
 	}
 	for path, f := range d.Multi {
 		if f.Dirty {
-			if _, isAddr := lf.Addressed[path]; isAddr {
+			if addr, isAddr := lf.Addressed[path]; isAddr {
 				p.DirtyAddressed = true
+				for _, e := range f.Entries {
+					p.DirtyIDs[e.ID()] = true
+				}
+				for t := range addr {
+					p.DirtyTests[t] = true
+				}
 			}
 			p.FreeFiles[path] = true
 			continue
@@ -459,6 +481,20 @@ func (d *Disk) ApplyClean(p *CleanPlan) {
 		}
 		f.Entries = out
 	}
+}
+
+// MaybeDirty: the id may belong to an addressed file the model no longer predicts.
+func (p *CleanPlan) MaybeDirty(id string) bool {
+	if !p.DirtyAddressed {
+		return false
+	}
+	if p.DirtyIDs[id] {
+		return true
+	}
+	if i := strings.LastIndex(id, " - "); i >= 0 {
+		return p.DirtyTests[id[:i]]
+	}
+	return true
 }
 
 // SplitKey splits file+"\x00"+id.
